@@ -99,17 +99,18 @@ func (p *Pred) String() string {
 
 // ExtSpec defines a harness filesystem extractor.
 type ExtSpec struct {
-	Name     string `json:"name"`
-	Pred     Pred   `json:"pred"`
-	NPkgs    int    `json:"npkgs"`               // packages returned per extracted file
-	NameMode string `json:"name_mode,omitempty"` // "path" (default) | "const" | "base"
-	VerMode  string `json:"ver_mode,omitempty"`  // "digest" (default) | "const" | "idx"
-	NoPURL   bool   `json:"no_purl,omitempty"`   // ToPURL returns nil for odd-indexed packages
-	PurlType string `json:"purl_type,omitempty"` // purl type of its packages (default "generic")
-	Partial  bool   `json:"partial,omitempty"`   // on a read error: return what was built so far together with the error
-	Buf      int    `json:"buf,omitempty"`       // read buffer size (default 64)
-	FailOn   *Pred  `json:"fail_on,omitempty"`   // Extract returns an error (and nothing else) for files matching this
-	ExtraLoc bool   `json:"extra_loc,omitempty"` // packages carry a second location, emitted in non-lexical order
+	Name       string `json:"name"`
+	Pred       Pred   `json:"pred"`
+	NPkgs      int    `json:"npkgs"`                 // packages returned per extracted file
+	NameMode   string `json:"name_mode,omitempty"`   // "path" (default) | "const" | "base"
+	VerMode    string `json:"ver_mode,omitempty"`    // "digest" (default) | "const" | "idx"
+	NoPURL     bool   `json:"no_purl,omitempty"`     // ToPURL returns nil for odd-indexed packages
+	PurlType   string `json:"purl_type,omitempty"`   // purl type of its packages (default "generic")
+	Partial    bool   `json:"partial,omitempty"`     // on a read error: return what was built so far together with the error
+	Buf        int    `json:"buf,omitempty"`         // read buffer size (default 64)
+	FailPanics bool   `json:"fail_panics,omitempty"` // the FailOn failure is a panic instead of an error
+	FailOn     *Pred  `json:"fail_on,omitempty"`     // Extract returns an error (and nothing else) for files matching this
+	ExtraLoc   bool   `json:"extra_loc,omitempty"`   // packages carry a second location, emitted in non-lexical order
 }
 
 // ExtractRec records one Extract call as seen at the plugin seam.
@@ -272,6 +273,13 @@ func (e *simExtractor) Extract(ctx context.Context, input *filesystem.ScanInput)
 	rec.Bytes = len(content)
 	rec.Digest = digest(content)
 	var inv inventory.Inventory
+	if e.spec.FailPanics && e.spec.FailOn != nil && rerr == nil && e.spec.FailOn.Eval(input.Path, func() (int64, bool, error) { return int64(len(content)), false, nil }) {
+		// the scenario-defined failure is a panic inside Extract (the engine contains it and
+		// reports it as this extractor's error for this file)
+		rec.Err = "scenario-defined panic"
+		rec.SeqEnd = e.probe.Rec.Add("extract-end", labelled(rec.Root, input.Path), e.spec.Name, "pkgs=0 err=true panic")
+		panic(fmt.Sprintf("sim extractor %s: scenario-defined panic on %s", e.spec.Name, input.Path))
+	}
 	if e.spec.FailOn != nil && rerr == nil && e.spec.FailOn.Eval(input.Path, func() (int64, bool, error) { return int64(len(content)), false, nil }) {
 		rerr = errors.New("scenario-defined parse failure")
 		rec.Err = rerr.Error()
